@@ -6,6 +6,7 @@ mod c13;
 mod c14;
 mod c15;
 mod c16;
+mod c19;
 mod net;
 mod tlsutil;
 mod tunnel;
@@ -23,5 +24,6 @@ fn main() {
     checks.extend(c14::checks());
     checks.extend(c15::checks());
     checks.extend(c16::checks());
+    checks.extend(c19::checks());
     std::process::exit(vcore::driver("vp-e2e", checks));
 }
